@@ -198,8 +198,10 @@ func genProtoConsts(repo string) (string, error) {
 				if as, is := n.(*ast.AssignStmt); is && len(as.Lhs) == 1 {
 					if id, is := as.Lhs[0].(*ast.Ident); is && id.Name == "cmdType" {
 						s := src(fset, as.Rhs[0])
-						if strings.HasPrefix(s, "data.Bytes()[") && strings.HasSuffix(s, "]") {
-							idx, _ = strconv.Atoi(s[len("data.Bytes()[") : len(s)-1])
+						for _, pre := range []string{"data.Bytes()[", "bytes["} {
+							if strings.HasPrefix(s, pre) && strings.HasSuffix(s, "]") {
+								idx, _ = strconv.Atoi(s[len(pre) : len(s)-1])
+							}
 						}
 					}
 				}
@@ -683,6 +685,58 @@ func genCodecSrc(repo string) (string, error) {
 			}
 		}
 		sw["setdata_sees_inplace_rewrite"] = n == 4 && m == 4
+	}
+
+	// 13. width of the "string ends inside the block" test of decodeStr; position of the LessLen gate in bolt / boltv2 Decode
+	{
+		fset, f, err := ParseGoFile(repo, "pkg/protocol/xprotocol/header.go")
+		if err != nil {
+			return "", err
+		}
+		if fd := FindFunc(f, "", "decodeStr"); fd != nil {
+			b := src(fset, fd.Body)
+			switch {
+			case strings.Contains(b, "end := index + 4 + int(length) if end > totalLen {") && strings.Contains(b, "return bytes[index+4 : end : end], end, nil"):
+				sw["hdr_end_u32"] = false
+			case strings.Contains(b, "end := uint32(index) + 4 + length if end > uint32(totalLen) {"):
+				sw["hdr_end_u32"] = true
+			default:
+				sw["hdr_end_u32"] = true
+				unknown("xprotocol/header.go decodeStr end test", b)
+			}
+			if !strings.Contains(b, "if length == math.MaxUint32 { return nil, index + 4, errInvalidLength }") {
+				unknown("xprotocol/header.go decodeStr", "invalid length path")
+			}
+		} else {
+			sw["hdr_end_u32"] = true
+			unknown("xprotocol/header.go", "decodeStr missing")
+		}
+		gate := map[string]int{}
+		for _, pk := range []string{"bolt", "boltv2"} {
+			fset, f, err := ParseGoFile(repo, "pkg/protocol/xprotocol/"+pk+"/protocol.go")
+			if err != nil {
+				return "", err
+			}
+			fd := FindFunc(f, pk+"Protocol", "Decode")
+			if fd == nil || len(fd.Body.List) == 0 {
+				unknown(pk+" Decode", "missing")
+				continue
+			}
+			first := src(fset, fd.Body.List[0])
+			switch {
+			case strings.HasPrefix(first, "if data.Len() > 0 { code := data.Bytes()[0] if code == "):
+				gate[pk] = 0 // version switch first, LessLen afterwards
+				if len(fd.Body.List) < 2 || !strings.HasPrefix(src(fset, fd.Body.List[1]), "if data.Len() >= LessLen {") {
+					unknown(pk+" Decode", "second statement")
+				}
+			case first == "if data.Len() < LessLen { return nil, nil }":
+				gate[pk] = 1
+			default:
+				gate[pk] = 2
+				unknown(pk+" Decode", first)
+			}
+		}
+		sw["bolt_gate_first"] = !(gate["bolt"] == 0 && gate["boltv2"] == 0)
 	}
 
 	names := make([]string, 0, len(sw))
